@@ -442,6 +442,8 @@ class Interp:
             return v.literal() != ''
         if isinstance(v, AObj):
             return True
+        if isinstance(v, AOpaque) and v.what == 'skipped call':
+            return False          # `if logger.isEnabledFor(..)`: interpreted with that logging switched off
         raise Unknown(f"branch on an abstract value {v!r} at line {getattr(node, 'lineno', 0)}")
 
     def byte_to_int(self, b):
@@ -866,6 +868,12 @@ class Interp:
                 if isinstance(args[0], AList) and all(isinstance(x, AInt) and x.v is not None for x in args[0].items):
                     return AList(sorted(args[0].items, key=lambda x: x.v, reverse=rev))
                 raise Unknown(f"sorted() of {type(args[0]).__name__} at line {e.lineno}")
+            if n == 'str' and len(args) == 1 and not kw:
+                if isinstance(args[0], AStr):
+                    return args[0]
+                if args[0] is None or isinstance(args[0], bool):
+                    return AStr([('lit', str(args[0]))])
+                return AStr(self.format(args[0], ''))
             if n == 'next' and len(args) in (1, 2) and not kw:
                 seq = self.iterate(args[0], e)
                 if seq:
